@@ -91,6 +91,21 @@ def build_jobs(ctx):
                 for i in range(n):
                     A[i, i] = rng.choice([0, 2])
         jobs.append(dict(fn=FN, src="random", A=A.tolist()))
+    # larger random forests and sparse graphs with randomly numbered nodes: long chains of late
+    # merges (a partial component absorbed by a second one that is absorbed by a third ...) only
+    # occur with enough nodes - no graph on <= 6 nodes has one
+    for k in range(150 if ctx.quick else 1500):
+        n = rng.randint(20, 40)
+        A = np.zeros((n, n))
+        order = list(range(n))
+        rng.shuffle(order)
+        for idx in range(1, n):
+            if rng.random() < 0.85:
+                u, v = order[idx], order[rng.randrange(max(0, idx - 4), idx) if k % 2 else rng.randrange(idx)]
+                A[u, v] = A[v, u] = rng.choice([1, 1, 2])
+        if k % 5 == 0:
+            A[order[0], order[0]] = 1
+        jobs.append(dict(fn=FN, src="random-forest", A=A.tolist(), light=1))
     return jobs
 
 
